@@ -135,6 +135,20 @@ func (g *gen) lookupName(env *specEnv, name string) (Val, error) {
 	if v, ok := env.vars[name]; ok {
 		return v, nil
 	}
+	if strings.HasPrefix(name, "$i") && len(name) > 2 {
+		// $i<k>: number of elements processed by the k-th (range) loop of the function, at the current point
+		k := 0
+		fmt.Sscanf(name[2:], "%d", &k)
+		if k >= 1 && k <= len(g.loopList) {
+			li := g.loopList[k-1]
+			if li.rangeIdx != nil {
+				if v, ok := g.vals[li.rangeIdx]; ok {
+					return Val{T: app("+", v.T, "1"), Sort: "Int", Typ: li.rangeIdx.Type()}, nil
+				}
+			}
+		}
+		return Val{}, fmt.Errorf("%s: no such range loop (or not reached yet)", name)
+	}
 	if strings.HasPrefix(name, "$reg:") {
 		rn := name[5:]
 		for k, v := range g.vals {
@@ -593,6 +607,19 @@ func (g *gen) evalArgs(env *specEnv, args []*SExpr) ([]Val, error) {
 func (g *gen) evalCall(env *specEnv, e *SExpr) (Val, error) {
 	// type-level builtins take unevaluated arguments
 	switch e.Name {
+	case "implements":
+		if len(e.Args) != 2 || e.Args[1].Op != "str" {
+			return Val{}, fmt.Errorf("implements(x, \"I\") expected")
+		}
+		x, err := g.evalSpec1(env, e.Args[0])
+		if err != nil {
+			return Val{}, err
+		}
+		it := g.resolveType(env, e.Args[1].Lit)
+		if it == nil || !types.IsInterface(it) {
+			return Val{}, fmt.Errorf("unknown interface %q", e.Args[1].Lit)
+		}
+		return boolVal(and(not(eq(app("i_tag", x.T), "0")), app(g.implFn(it), app("i_tag", x.T)))), nil
 	case "typeIs", "dynType":
 		if len(e.Args) != 2 || e.Args[1].Op != "str" {
 			return Val{}, fmt.Errorf("typeIs(x, \"T\") expected")
